@@ -149,6 +149,23 @@ def rand_mgs(rng):
     """MinGenSet instance built from a hidden generating multiset (so one exists): returns kwargs
     (numbers, total, weight_type, max_multiplicity, lowerbound, partition_constraints,
     remove_complement_values) and the scale (values are integers * scale, scale dyadic)."""
+    if rng.random() < 0.07:
+        # several partition constraints of 2-3 parts over a hidden multiset of 4-5 small values and ONE number: the optimum lies in
+        # the top part of the range len(numbers)+1+sum(len(c)-1)
+        while True:
+            g = [rng.choice([1, 1, 2, 2, 3, 4]) for _ in range(rng.choice([4, 5]))]
+            if sum(g) <= 14:
+                break
+        total = sum(g); parts = []
+        for _ in range(rng.choice([2, 2, 3])):
+            t = rng.choice([2, 3, 3]); sums = [0] * t
+            idx = list(range(len(g))); rng.shuffle(idx)
+            for pos, i_ in enumerate(idx):
+                sums[pos % t if pos < t else rng.randrange(t)] += g[i_]
+            parts.append(sums)
+        a = sum(v for v in g if rng.random() < 0.4) or g[0]
+        return dict(numbers=[a], total=total, weight_type=int, max_multiplicity=1, lowerbound=rng.choice([1, 1, 2, 0]),
+                    remove_complement_values=rng.random() < 0.8, partition_constraints=parts), 1
     while True:
         k = rng.choice([1, 2, 2, 3, 3, 4])
         g = [rng.choice([1, 1, 2, 2, 3, 4, 5]) for _ in range(k)]
